@@ -32,7 +32,7 @@ ASSUMPTIONS = [
     "copy_subdir directories contain no index.md; file names are lower case (no collation ambiguity)",
 ]
 SRC = "module srcmod\n  !! a module to link to\n  integer :: x\ncontains\n  subroutine srcsub()\n    !! a procedure\n  end subroutine srcsub\nend module srcmod\n"
-MD_NAMES = ["alpha.md", "beta.md", "gamma.md", "zeta.md", "notes.md"]
+MD_NAMES = ["alpha.md", "beta.md", "gamma.md", "zeta.md", "notes.md", "v1.2.md", "v1.3.md"]    # (dots in names: release notes)
 DIR_NAMES = ["guide", "ref", "extra", "more"]
 COPY_NAMES = ["images", "data"]
 OTHER = ["diagram.png", "table.csv", "readme.txt"]
